@@ -124,6 +124,27 @@ CLAIMED = {
             "preserved, script shape; tied to the code by differential correspondence and the oracle Spec.c14 "
             "evaluated on the implementation's output.",
             "python-bitcoinlib is represented by the validated shim; theorems are about the model"),
+    "C17": ("Lean theorems: the text to be signed is exactly RSK_powHSM_signer_<hash>_iteration_<n> wrapped as an "
+            "Ethereum personal message with the decimal length; str(n) is injective (decimal read-back) and so is "
+            "the message in (hash, iteration); iterations are accepted iff 0 <= n < 65536, malformed hashes are "
+            "refused; authorize_signer sends the SIGN messages of a prefix of the file's signatures in file "
+            "order for every device behaviour, and fails without a single signature. Tied to SignerVersion / "
+            "SignerAuthorization save+load / HSM2Dongle.authorize_signer by correspondence; real sign-then-verify "
+            "of `signapp key` with the independent secp256k1 binding over the Keccak digest of the specified "
+            "message is part of the C19 stream.",
+            "Keccak-256 uninterpreted; int() leniencies on iteration strings not modelled"),
+    "C19": ("Lean theorems about ledgerblue's Intel-HEX parser as used by compute_app_hash: for every file the "
+            "parser accepts, the areas it returns are sorted by start address (sorted insertion invariant, by "
+            "induction over the records), so the hash is over the data areas in address order whatever the order "
+            "in the file; a run of consecutive data records appends exactly the concatenation of its payloads and "
+            "flushes nothing, so two cuttings of the same bytes into records give the same area "
+            "(splitting_independent). Tied to IntelHexParser / compute_app_hash / signapp hash by correspondence "
+            "on images rendered by an independent writer; the oracle compares the hashed bytes with the "
+            "generator's own area list. One-time signing (real signonetime.main): signatures verify under the "
+            "written key over SHA-256 of the generator's areas, key written nowhere, fresh per run — tests, "
+            "labelled as such.",
+            "partial: the one-time signing half is validated by test with real crypto, not proved; SHA-256/ECDSA "
+            "uninterpreted"),
 }
 NOT_YET = "check not built yet (work in progress; see DESIGN.md §11)"
 
